@@ -86,6 +86,7 @@ type Contract struct {
 	OnlyCallers  []NoReads
 	NoMethods    []NoReads
 	StringsExact bool // model the contents of concatenated strings (quantified axioms)
+	UntilClosed  bool // `untilclosed` (on a trusted function): its body must be a receive loop that ends only when the channel is closed (structural obligation trusted.shape)
 	IntRange     bool // `intrange`: int / int64 values read from memory, parameters and results lie in the 64-bit range (they do); arithmetic stays mathematical
 	Handler  bool // deferred recover handler: recover() yields an arbitrary value
 	RecoverBy string // callee key of the deferred recover handler: runtime panics after its Defer are converted to errors
@@ -522,6 +523,8 @@ func (sp *Specs) loadSpecFile(path, pkgPath string) error {
 			cur.StringsExact = true
 		case "intrange":
 			cur.IntRange = true
+		case "untilclosed":
+			cur.UntilClosed = true
 		case "handler":
 			cur.Handler = true
 		case "recoverby":
